@@ -414,6 +414,14 @@ func (g *gen) packet(h *hstate) []byte {
 		bnd, off = g.bnd6, 24
 	}
 	dst := bnd[r.Intn(len(bnd))]
+	if fam == 6 {
+		switch r.Intn(12) {
+		case 0: // ::ffff:a.b.c.d for an IPv4 boundary address: only the IPv6 table may route it
+			dst = append([]byte{0, 0, 0, 0, 0, 0, 0, 0, 0, 0, 0xff, 0xff}, g.bnd4[r.Intn(len(g.bnd4))]...)
+		case 1: // ::a.b.c.d
+			dst = append(make([]byte, 12), g.bnd4[r.Intn(len(g.bnd4))]...)
+		}
+	}
 	if n >= off+len(dst) {
 		copy(b[off:], dst)
 	} else if n > off {
@@ -675,6 +683,29 @@ func directed() []*Scenario {
 		{Kind: "anshs", Peer: 1, Ep: 2},
 	}
 	out = append(out, sc6)
+	// IPv4-mapped IPv6 destinations are IPv6 destinations: peer 0 owns 1.0.0.0/24 only, so ::ffff:1.0.0.1 has no route
+	// (i), goes to peer 1 who owns ::ffff:0:0/96 (ii), or to peer 1 through ::/0 (iii) — never to peer 0
+	mp := func(v4 ...byte) []byte { return append([]byte{0, 0, 0, 0, 0, 0, 0, 0, 0, 0, 0xff, 0xff}, v4...) }
+	for vi, extra := range [][]dpath.Entry{{}, {{Fam: 6, Bits: mp(0, 0, 0, 0), Len: 96, Owner: 1}}, {{Fam: 6, Bits: make([]byte, 16), Len: 0, Owner: 1}}} {
+		t := append([]dpath.Entry{{Fam: 4, Bits: []byte{1, 0, 0, 0}, Len: 24, Owner: 0}, {Fam: 4, Bits: []byte{2, 0, 0, 0}, Len: 24, Owner: 1}}, extra...)
+		sc7 := &Scenario{Kind: "scenario", Gen: fmt.Sprintf("directed-v4-mapped-%d", vi), NPeers: 2, Table: t, MTU: 1420, TunBatch: 16, Eps: []int{1, 2}}
+		ev := Ev{Kind: "tun"}
+		tg := uint16(1)
+		for _, dst := range [][]byte{mp(1, 0, 0, 1), mp(1, 0, 0, 255), mp(2, 0, 0, 1), append(make([]byte, 12), 1, 0, 0, 1), make([]byte, 16), mp(255, 255, 255, 255)} {
+			p := make([]byte, 60)
+			p[0] = 0x60
+			binary.BigEndian.PutUint16(p[4:], tg)
+			copy(p[24:], dst)
+			for i := 40; i < 60; i++ {
+				p[i] = byte(i) + byte(tg)
+			}
+			tg++
+			ev.Pkts = append(ev.Pkts, p)
+		}
+		ev.Pkts = append(ev.Pkts, v4to([4]byte{1, 0, 0, 1}, 40, 100), v4to([4]byte{2, 0, 0, 1}, 41, 101))
+		sc7.Evs = []Ev{{Kind: "refhs", Peer: 0, Ep: 1}, {Kind: "refhs", Peer: 1, Ep: 2}, ev}
+		out = append(out, sc7)
+	}
 	// buffer history: long unroutable packets full of non-zero bytes are dropped by the reader, which
 	// keeps their buffers for the next read; the short routable packets that follow must be padded with zeros
 	for _, tb := range []int{1, 4} {
